@@ -170,12 +170,21 @@ func (sc *Scanner) scanNumber(ch int, buf *bytes.Buffer) error {
 	}
 	sc.scanDecimal(ch, buf)
 	if sc.Peek() == '.' {
+		if ch == '.' {
+			// the numeral started with its decimal point: ".0."
+			writeChar(buf, sc.Next())
+			return sc.Error(buf.String(), "malformed number")
+		}
 		sc.scanDecimal(sc.Next(), buf)
 	}
 	if ch = sc.Peek(); ch == 'e' || ch == 'E' {
 		writeChar(buf, sc.Next())
 		if ch = sc.Peek(); ch == '-' || ch == '+' {
 			writeChar(buf, sc.Next())
+		}
+		if !isDecimal(sc.Peek()) {
+			// an exponent needs at least one digit: "1e", "1e+", "1ea"
+			return sc.Error(buf.String(), "malformed number")
 		}
 		sc.scanDecimal(sc.Next(), buf)
 	}
